@@ -8,6 +8,7 @@
 #include <errno.h>
 #include <fcntl.h>
 #include <malloc.h>
+#include <pthread.h>
 #include <pty.h>
 #include <signal.h>
 #include <stdarg.h>
@@ -102,6 +103,18 @@ static int bind_dgram(const char *path) {
     return fd;
 }
 
+/* "stack <KiB>": the following failing-exec calls are issued from a fresh thread with a stack of that size
+ * (the library runs on the caller's stack: its stack use must not depend on the configuration) */
+static size_t STACK_KIB = 0;
+struct thr_call { int is_execv; int r; int e; };
+static void *thr_call_main(void *p) {
+    struct thr_call *x = p;
+    errno = 0;
+    x->r = x->is_execv ? execv(verif_expect.path, verif_expect.argv) : execve(verif_expect.path, verif_expect.argv, verif_expect.envp);
+    x->e = errno;
+    return NULL;
+}
+
 static int do_call(int nf, char **f) {
     /* call api path argv envp mode ret errno */
     if (nf < 8) return -1;
@@ -129,9 +142,19 @@ static int do_call(int nf, char **f) {
         int st; waitpid(pid, &st, 0);
         recf("ret\t%d\tchild\t%d\t%d\n", cur_idx, WIFEXITED(st) ? WEXITSTATUS(st) : -WTERMSIG(st), 0);
     } else {
-        errno = 0;
-        int r = is_execv ? execv(verif_expect.path, verif_expect.argv) : execve(verif_expect.path, verif_expect.argv, verif_expect.envp);
-        int e = errno;
+        int r, e;
+        if (STACK_KIB) {
+            struct thr_call x = { is_execv, 0, 0 };
+            pthread_attr_t at; pthread_attr_init(&at); pthread_attr_setstacksize(&at, STACK_KIB * 1024);
+            pthread_t th;
+            if (pthread_create(&th, &at, thr_call_main, &x)) { perror("pthread_create"); exit(3); }
+            pthread_join(th, NULL);
+            r = x.r; e = x.e;
+        } else {
+            errno = 0;
+            r = is_execv ? execv(verif_expect.path, verif_expect.argv) : execve(verif_expect.path, verif_expect.argv, verif_expect.envp);
+            e = errno;
+        }
         recf("ret\t%d\t%d\t%d\t%d\n", cur_idx, r, e, verif_expect.real_calls);
     }
     verif_sample_state("after");
@@ -183,6 +206,7 @@ static void handle_line(int nf, char **f) {
     } else if (!strcmp(f[0], "stdin") && nf >= 2) {
         if (!strcmp(f[1], "closed")) close(0);
         else if (!strcmp(f[1], "null")) { int fd = open("/dev/null", O_RDONLY); dup2(fd, 0); close(fd); }
+    } else if (!strcmp(f[0], "stack") && nf >= 2) { STACK_KIB = (size_t) atol(f[1]);
     } else if (!strcmp(f[0], "call")) { do_call(nf, f);
     } else if (!strcmp(f[0], "state")) { verif_sample_state(nf >= 2 ? f[1] : "mark");
     }
